@@ -142,6 +142,7 @@ func cmdCheck(args []string) {
 	}
 	depUnits := map[string]bool{}
 	assumedBodies := map[string]string{}
+	heldBack := map[string][]*Obligation{}
 	for ui := 0; ui < len(units); ui++ {
 		un := units[ui]
 		key := modulePath + "/" + un.Fn
@@ -192,10 +193,19 @@ func cmdCheck(args []string) {
 					sel = append(sel, o)
 				}
 			}
-			for _, o := range sel {
+			for _, o := range res.Obls {
 				o.script = res.script
 			}
 			pendingObs = append(pendingObs, sel...)
+			isSel := map[*Obligation]bool{}
+			for _, o := range sel {
+				isSel[o] = true
+			}
+			for _, o := range res.Obls {
+				if !isSel[o] {
+					heldBack[un.Fn] = append(heldBack[un.Fn], o)
+				}
+			}
 			funcs[res.Name] = true
 			for _, x := range res.Inlined {
 				inlined[x] = true
@@ -222,6 +232,20 @@ func cmdCheck(args []string) {
 			for _, x := range res.Regexes {
 				regexes[x] = true
 			}
+		}
+	}
+	// A unit listed with a filter whose contract is also relied on at a call site of another unit must be checked against
+	// its whole contract (every clause, its frame, its invariants, the preconditions of its own callees), not only the
+	// clauses the property names: the callers assumed all of it.
+	for x := range contractsUsed {
+		short := strings.TrimPrefix(strings.TrimPrefix(x, modulePath+"/"), modulePath+".")
+		if strings.HasPrefix(x, modulePath+".") {
+			short = "main." + short
+		}
+		if obs := heldBack[short]; len(obs) > 0 {
+			pendingObs = append(pendingObs, obs...)
+			delete(heldBack, short)
+			depUnits[short+" (whole contract)"] = true
 		}
 	}
 	// discharge the obligations of all units together (16 cores)
